@@ -79,6 +79,7 @@ EW_REPRESENTATIVES = [
     ([2, 2, 3], [2, 3]), ([2, 2, 3], [3]), ([2, 2, 3], [2, 1, 3]), ([2, 2, 3], [1, 2, 3]), ([1, 2, 3], [2, 2, 3]),
     ([2, 1, 2], [1, 2]), ([2, 2, 2], [2, 1, 1]), ([2, 1, 2, 2], [2, 1, 2]), ([2, 2, 1, 2], [2, 2, 2]),
     ([3, 2, 2], [3, 1, 2]), ([2, 3], [2]), ([2, 2], [3, 2]), ([2, 3, 2], [2, 2, 2]),
+    ([2, 1], [1, 2]), ([2, 3], [3, 2]), ([1, 4], [2, 2]), ([3, 1, 2], [1, 3, 1]),
 ]
 
 
@@ -281,8 +282,10 @@ def _rand_graphs(seed, count, n_nodes, ops=("ADD", "MUL", "SUB", "UMUL", "NEG", 
 def c01_instances(tier):
     gi = graph_inst
     I = [gi("diamond", GRAPHS["diamond"]), gi("selfprod3", GRAPHS["selfprod3"], mode=1),
-         gi("shared", GRAPHS["shared"], tracked=[True, False]), gi("user_chain", GRAPHS["user_chain"])]
+         gi("shared", GRAPHS["shared"], tracked=[True, False]), gi("user_chain", GRAPHS["user_chain"]),
+         multiuse_inst([2, 2], [2], 4)]
     if tier == "thorough":
+        I += [multiuse_inst([2, 3], [3], 4), multiuse_inst([2, 3], [3], 3), multiuse_inst([2, 2], [2, 1], 4), multiuse_inst([2, 2], [1], 4, passes=2)]
         seed = int(os.environ.get("VERIF_SEED", "0") or 0)
         for tag, nodes in GRAPHS.items():
             I.append(gi(tag, nodes))
@@ -352,7 +355,7 @@ _GRAPH_NOTE = ("graph classes concrete (<= 6 nodes, arrays of 1-4 elements), val
                "Rc::drop_slow stubbed (A3); graph families listed in the evidence; thorough adds VERIF_SEED-sampled random node lists")
 
 PROPS.update({
-    "C01": {"level": "model_checking", "kani_groups": ["h_graph.rs"], "instances": c01_instances,
+    "C01": {"level": "model_checking", "kani_groups": ["h_graph.rs", "h_elementwise.rs"], "instances": c01_instances,
             "technique": "bounded contract checking (Kani/CBMC) of the real backward pass on concrete graph classes against a forward-mode oracle",
             "level_text": _GRAPH_TEXT, "level_note": _GRAPH_NOTE, "explanation": _GRAPH_TEXT,
             "not_decided": ["the lifting from the checked graph classes to all programs (induction over the pass) is not machine-checked"]},
@@ -450,13 +453,14 @@ def c07_instances(tier):
                    ("recip", 0, [2]), ("relu", 0, [2, 2]), ("sigmoid", 0, [2])]
     for op, p, d in quick_unary:
         I.append(unary_inst(op, p, d, 0))
-    I += [sum_inst([2, 3], 1, 0), sum_inst([2, 2, 2], 2, 0), sum_inst([2, 3], 0, 0), sum_inst([2, 2], 2, 0),
+    I += [sum_inst([2, 3], 1, 0), sum_inst([2, 2, 2], 2, 0), sum_inst([2, 3], 0, 0), sum_inst([2, 2], 2, 0), sum_inst([3, 1, 1], 2, 0),
+          sum_inst([2, 1], 1, 0), sum_inst([18], 1, 0),
           reshape_inst([2, 3], [3, 2], 0), reshape_inst([2, 3], [4], 0), softmax_inst(1, 0)]
     if tier == "thorough":
         for op, p, d in [("neg", 0, [1, 2, 1, 2]), ("scale", -2, [2, 1, 2]), ("powf", 2, [2, 2]), ("powf", -1, [3]), ("powf", 0, [2]),
                          ("powf", 1, [2]), ("ln", 0, [2, 1]), ("exp", 0, [3]), ("recip", 0, [1, 3]), ("relu", 0, [3]), ("sigmoid", 0, [2, 2])]:
             I.append(unary_inst(op, p, d, 0))
-        for dims in ([3], [2, 3], [2, 2, 2], [2, 1, 3], [1, 2, 2, 2]):
+        for dims in ([3], [2, 3], [2, 2, 2], [2, 1, 3], [1, 2, 2, 2], [2, 1, 1], [1, 1], [2, 3, 1, 1]):
             for k in range(0, len(dims) + 1):
                 I.append(sum_inst(dims, k, 0))
         I += [sum_inst([2, 2], 3, 0), reshape_inst([2, 2, 2], [4, 2], 0), reshape_inst([4], [2, 1, 2], 0), reshape_inst([2, 2], [2, 3], 0),
@@ -505,7 +509,8 @@ def c02_instances(tier):
 
 def c06_instances(tier):
     I = [conv_inst([], 1, 3, 3, 1, 2, 2, 1, 1, 0), conv_inst([2], 1, 2, 2, 2, 1, 1, 1, 1, 0), conv_inst([], 2, 2, 3, 1, 2, 2, 1, 1, 0),
-         conv_inst([], 1, 3, 4, 1, 2, 2, 2, 1, 0), conv_inst([1], 1, 2, 3, 1, 1, 2, 1, 1, 0)]
+         conv_inst([], 1, 3, 4, 1, 2, 2, 2, 1, 0), conv_inst([1], 1, 2, 3, 1, 1, 2, 1, 1, 0),
+         conv_inst([], 1, 3, 3, 1, 2, 2, 1, 2, 0)]
     if tier == "thorough":
         I += [conv_inst([2], 1, 3, 3, 1, 2, 2, 1, 1, 0), conv_inst([], 1, 4, 4, 1, 2, 2, 2, 2, 0), conv_inst([], 1, 4, 3, 2, 3, 2, 1, 1, 0),
               conv_inst([], 1, 3, 4, 1, 2, 2, 1, 2, 0), conv_inst([2, 1], 1, 2, 2, 1, 2, 2, 1, 1, 0), conv_inst([], 2, 3, 3, 2, 2, 2, 1, 1, 0),
@@ -532,7 +537,7 @@ def multiuse_inst(a, b, uses, passes=1):
 
 def c03_instances(tier):
     I = [flatten_inst([2, 3], [3]), flatten_inst([2, 3], [1, 3]), flatten_inst([2, 2, 3], [2, 3]), flatten_inst([2, 3], [2, 1]),
-         multiuse_inst([2, 3], [3], 2), multiuse_inst([2, 2], [2, 1], 3), ew_grad_inst("mul", [2, 1, 2], [1, 2])]
+         multiuse_inst([2, 3], [3], 2), multiuse_inst([2, 2], [2, 1], 3), multiuse_inst([2, 2], [2], 4), ew_grad_inst("mul", [2, 1, 2], [1, 2])]
     if tier == "thorough":
         I += [flatten_inst([2, 2, 3], [3]), flatten_inst([2, 2, 3], [2, 1, 3]), flatten_inst([2, 2, 3], [1, 2, 1]), flatten_inst([2, 2], [1]),
               flatten_inst([3], [1, 3]), flatten_inst([2, 2, 2, 2], [2, 1, 2]), flatten_inst([2, 3], [1, 1]), flatten_inst([2, 1, 2], [2]),
@@ -650,7 +655,10 @@ def c09_instances(tier):
 def c12_instances(tier):
     I = [simple_inst("flags_instance", "c12_clone_contract", "", "Clone for Array",
                      "clone shares values/children/counter/pending/gradient by pointer and copies the flag values", "symbolic flag", unwind=12)]
-    for v in (0, 1, 2):
+    I.append(simple_inst("kept_gradient_instance", "c12_kept_gradient", "", "Array::backward gradient deposit",
+                         "a second pass accumulates whatever gradient / leaf handles of the first pass are still alive; fetched gradients stay intact",
+                         "program c=a*b; e=c+a, two passes, [2] arrays", unwind=12, timeout=1500))
+    for v in ((0, 1, 2) if tier == "quick" else (0, 1, 2, 3)):
         I.append(simple_inst("handles_instance", "c12_handles_v%d" % v, str(v), "program with clones / drops / re-binding",
                              "values and gradients bitwise identical to the plain program; pass started from a clone of the result",
                              "program c=a*b; d=c+a; e=d*c on [2] arrays; variant %d; values/seed symbolic" % v, unwind=12, timeout=1500))
@@ -702,7 +710,7 @@ def c15_instances(tier):
     for c in convs:
         I.append(simple_inst("conv_layer_instance", "c15_convlayer__b%d_d%d_%dx%d__f%d_%dx%d__s%d_%d_a%d" % c, ", ".join(map(str, c)), "Conv::forward",
                              "activation(conv(x, filters, stride) + bias per filter)", "sizes concrete; parameters and input symbolic", unwind=20, timeout=1800, mem_gb=16))
-    for d in ([[2, 2]] + ([[1, 2], [2, 1], [4]] if tier == "thorough" else [])):
+    for d in ([[2, 2], [2, 1, 2]] + ([[1, 2], [2, 1], [4], [1, 2, 2]] if tier == "thorough" else [])):
         I.append(simple_inst("cost_instance", "c15_cost__%s" % dn(d), "[%s]" % lit(d), "cost::mse / cost::cross_entropy",
                              "mse = (target-output)^2/count; cross-entropy = -target*ln(output)/leading dim", "dims %s" % d, unwind=12))
     I.append(simple_inst("train_instance", "c15_model__b1_1to1", "1, 1, 1, 1, 0.5, 1", "Model::forward / Model::backward",
@@ -738,7 +746,7 @@ def c08_instances(tier):
 
 def c19_instances(tier):
     I = [ew_inst("add", [2, 2, 3], [2, 3]), ew_inst("div", [2, 2], [2]), mm_inst([2, 2], True, [2, 2], False, [2]),
-         unary_inst("powf", 3, [2], 0), unary_inst("sigmoid", 0, [2], 1), sum_inst([2, 2, 2], 2, 0),
+         unary_inst("powf", 3, [2], 0), unary_inst("sigmoid", 0, [2], 1), sum_inst([2, 2, 2], 2, 0), sum_inst([18], 1, 0), sum_inst([2, 17], 1, 1),
          simple_inst("ctor_instance", "c16_ctor__2x3__n6", "[2, 3], 6", "Array::from", "C16 under f32", "dims [2,3]", unwind=18),
          simple_inst("ctor_instance", "c16_ctor__2x2__n3", "[2, 2], 3", "Array::from", "C16 under f32: refusal does not depend on the float width", "dims [2,2], 3 values", unwind=18, expect_panic=True),
          graph_inst("diamond", GRAPHS["diamond"]), simple_inst("track_rule_instance", "c09_rule_matmul_c", "5", "matmul", "C09 under f32", "symbolic flags", timeout=1200)]
